@@ -108,23 +108,23 @@ class JSONPathRecursiveDescentSegment(JSONPathSegment):
         # Visit the root node
         yield root
 
-        # Queue root's children
-        queue.extend([(child, depth) for child in _nondeterministic_children(root)])
+        # Queue root's children. _depth_ is the nesting level of a node, with
+        # the root at level 1, just like in `_visit`.
+        queue.extend(
+            [(child, depth + 1) for child in _nondeterministic_children(root)]
+        )
 
         while queue:
             node, depth = queue.popleft()
+            self._raise_for_depth(node, depth)
             yield node
-
-            if depth >= self.env.max_recursion_depth:
-                raise JSONPathRecursionError(
-                    "recursion limit exceeded", token=self.token
-                )
 
             # Randomly choose to visit child nodes now or queue them for later?
             visit_children = random.choice([True, False])  # noqa: S311
 
             for child in _nondeterministic_children(node):
                 if visit_children:
+                    self._raise_for_depth(child, depth + 1)
                     yield child
 
                     # Queue grandchildren by randomly interleaving them into the
@@ -146,6 +146,13 @@ class JSONPathRecursiveDescentSegment(JSONPathSegment):
                     )
                 else:
                     queue.append((child, depth + 1))
+
+    def _raise_for_depth(self, node: JSONPathNode, depth: int) -> None:
+        """Raise if _node_ is an array or object nested deeper than the limit."""
+        if depth > self.env.max_recursion_depth and isinstance(
+            node.value, (dict, list)
+        ):
+            raise JSONPathRecursionError("recursion limit exceeded", token=self.token)
 
     def __str__(self) -> str:
         return f"..[{', '.join(str(itm) for itm in self.selectors)}]"
